@@ -326,15 +326,15 @@ Proof.
 Qed.
 
 (** [parse_element_with]: the rest is shorter when [content] does not lengthen *)
-Lemma parse_element_with_rest_gen : forall content ps s n cnt r,
+Lemma parse_element_with_rest_gen : forall fa content ps s n cnt r,
   (forall sc p l s' ch c r', content sc p l s' = POk (ch, c, r') -> length r' <= length s') ->
-  parse_element_with content ps s = POk (n, cnt, r) -> length r < length s.
+  parse_element_with fa content ps s = POk (n, cnt, r) -> length r < length s.
 Proof.
-  intros content ps s n cnt r Hc H. unfold parse_element_with in H.
+  intros fa content ps s n cnt r Hc H. unfold parse_element_with in H.
   destruct (scan_qname s) as [[[prefix local] r0]|] eqn:Eq; cbn [of_opt pbind] in H; [|discriminate].
   apply scan_qname_rest in Eq.
   destruct (xstr_eqb prefix s_xmlns); [discriminate|].
-  destruct (parse_attrs (S (length r0)) r0) as [[[raw e] rest]| |] eqn:Ea;
+  destruct (parse_attrs fa r0) as [[[raw e] rest]| |] eqn:Ea;
     cbn [pbind] in H; try discriminate.
   apply parse_attrs_rest in Ea.
   destruct (split_attrs raw [] []) as [[own plain]|]; cbn [of_opt pbind] in H; [|discriminate].
@@ -386,7 +386,7 @@ Proof.
       num_cases H d.
       destruct (xstr_eqb p pp && xstr_eqb l pl); [|discriminate].
       inversion H; subst. cbn [length] in *. lia. }
-    destruct (parse_element_with (parse_content f) (Some sc) (c :: r2)) as [[[n c1] rest]| |] eqn:Ee;
+    destruct (parse_element_with f (parse_content f) (Some sc) (c :: r2)) as [[[n c1] rest]| |] eqn:Ee;
       cbn [pbind] in H; try discriminate.
     apply parse_element_with_rest_gen in Ee;
       [|intros sc0 p0 l0 s0 ch0 c0 r0 H0; apply IH in H0; lia].
@@ -402,10 +402,10 @@ Proof.
     inversion H; subst. apply IH in Ep. lia.
 Qed.
 
-Lemma parse_element_with_rest : forall f ps s n cnt r,
-  parse_element_with (parse_content f) ps s = POk (n, cnt, r) -> length r < length s.
+Lemma parse_element_with_rest : forall fa f ps s n cnt r,
+  parse_element_with fa (parse_content f) ps s = POk (n, cnt, r) -> length r < length s.
 Proof.
-  intros f ps s n cnt r H. apply parse_element_with_rest_gen in H; [exact H|].
+  intros fa f ps s n cnt r H. apply parse_element_with_rest_gen in H; [exact H|].
   intros sc p l s' ch c r' H0. apply parse_content_rest in H0. lia.
 Qed.
 
@@ -450,15 +450,16 @@ Proof.
   revert H. apply IH. lia.
 Qed.
 
-Lemma parse_element_with_fuel : forall content ps s,
+Lemma parse_element_with_fuel : forall fa content ps s,
+  length s <= fa ->
   (forall sc p l s', length s' < length s -> content sc p l s' <> PFuel) ->
-  parse_element_with content ps s <> PFuel.
+  parse_element_with fa content ps s <> PFuel.
 Proof.
-  intros content ps s Hc H. unfold parse_element_with in H.
+  intros fa content ps s Hfa Hc H. unfold parse_element_with in H.
   destruct (scan_qname s) as [[[prefix local] r0]|] eqn:Eq; cbn [of_opt pbind] in H; [|discriminate].
   apply scan_qname_rest in Eq.
   destruct (xstr_eqb prefix s_xmlns); [discriminate|].
-  destruct (parse_attrs (S (length r0)) r0) as [[[raw e] rest]| |] eqn:Ea;
+  destruct (parse_attrs fa r0) as [[[raw e] rest]| |] eqn:Ea;
     cbn [pbind] in H; [|discriminate|].
   2:{ revert Ea. apply parse_attrs_fuel. lia. }
   apply parse_attrs_rest in Ea.
@@ -503,12 +504,12 @@ Proof.
       destruct (skip_spaces r3) as [|d rest]; [discriminate|].
       num_cases H d.
       destruct (xstr_eqb p pp && xstr_eqb l pl); discriminate. }
-    destruct (parse_element_with (parse_content f) (Some sc) (c :: r2)) as [[[n c1] rest]| |] eqn:Ee;
+    destruct (parse_element_with f (parse_content f) (Some sc) (c :: r2)) as [[[n c1] rest]| |] eqn:Ee;
       cbn [pbind] in H; [|discriminate|].
     + apply parse_element_with_rest in Ee. cbn [length] in Ee.
       apply pbind_fuel_last in H; [|intros [[ch' cnt'] rest']; discriminate].
       revert H. apply IH. lia.
-    + revert Ee. apply parse_element_with_fuel.
+    + revert Ee. apply parse_element_with_fuel; [cbn [length]; lia|].
       intros sc0 p0 l0 s0 H0. apply IH. cbn [length] in H0. lia.
   - destruct (scan_text (b :: s')) as [[t rest]|] eqn:Et; cbn [of_opt pbind] in H; [|discriminate].
     apply scan_text_rest in Et; [|exact Eb]. cbn [length] in Et.
@@ -520,7 +521,7 @@ Qed.
 
 Lemma parse_element_fuel : forall f ps s, length s <= f -> parse_element f ps s <> PFuel.
 Proof.
-  intros f ps s Hle. unfold parse_element. apply parse_element_with_fuel.
+  intros f ps s Hle. unfold parse_element. apply parse_element_with_fuel; [exact Hle|].
   intros sc p l s' Hlt. apply parse_content_fuel. lia.
 Qed.
 
@@ -607,15 +608,17 @@ Proof.
   mono_step IH.
 Qed.
 
-Lemma parse_element_with_mono : forall c1 c2 ps s,
+Lemma parse_element_with_mono : forall fa fa' c1 c2 ps s,
+  fa <= fa' ->
   (forall sc p l s', c1 sc p l s' <> PFuel -> c2 sc p l s' = c1 sc p l s') ->
-  parse_element_with c1 ps s <> PFuel ->
-  parse_element_with c2 ps s = parse_element_with c1 ps s.
+  parse_element_with fa c1 ps s <> PFuel ->
+  parse_element_with fa' c2 ps s = parse_element_with fa c1 ps s.
 Proof.
-  intros c1 c2 ps s Hc H. unfold parse_element_with in *.
+  intros fa fa' c1 c2 ps s Hfa Hc H. unfold parse_element_with in *.
   destruct (scan_qname s) as [[[prefix local] r0]|]; cbn [of_opt pbind] in *; [|reflexivity].
   destruct (xstr_eqb prefix s_xmlns); [reflexivity|].
-  destruct (parse_attrs (S (length r0)) r0) as [[[raw e] rest]| |];
+  rewrite (parse_attrs_mono fa fa' r0 Hfa); [|eapply pbind_nofuel_l; eassumption].
+  destruct (parse_attrs fa r0) as [[[raw e] rest]| |];
     cbn [pbind] in *; try reflexivity.
   destruct (split_attrs raw [] []) as [[own plain]|]; cbn [of_opt pbind] in *; [|reflexivity].
   destruct (resolve_attrs (resolve_scope ps own) plain []) as [attrs|];
@@ -647,13 +650,14 @@ Proof.
     { destruct (parse_pi r2) as [[n rest]|]; cbn [of_opt pbind] in *; [|reflexivity].
       mono_step IH. }
     destruct (c =? 47)%N; [reflexivity|].
-    assert (Ee : parse_element_with (parse_content f') (Some sc) (c :: r2)
-                 = parse_element_with (parse_content f) (Some sc) (c :: r2)).
+    assert (Ee : parse_element_with f' (parse_content f') (Some sc) (c :: r2)
+                 = parse_element_with f (parse_content f) (Some sc) (c :: r2)).
     { apply parse_element_with_mono.
+      - lia.
       - intros sc0 p0 l0 s0 H0. apply IH; [lia|exact H0].
       - eapply pbind_nofuel_l; eassumption. }
     rewrite Ee. clear Ee.
-    destruct (parse_element_with (parse_content f) (Some sc) (c :: r2)) as [[[n c1] rest]| |];
+    destruct (parse_element_with f (parse_content f) (Some sc) (c :: r2)) as [[[n c1] rest]| |];
       cbn [pbind] in *; try reflexivity.
     mono_step IH.
   - destruct (scan_text (b :: s')) as [[t rest]|]; cbn [of_opt pbind] in *; [|reflexivity].
@@ -665,7 +669,7 @@ Qed.
 Lemma parse_element_mono : forall f f' ps s,
   f <= f' -> parse_element f ps s <> PFuel -> parse_element f' ps s = parse_element f ps s.
 Proof.
-  intros f f' ps s Hle H. unfold parse_element in *. apply parse_element_with_mono; [|exact H].
+  intros f f' ps s Hle H. unfold parse_element in *. apply parse_element_with_mono; [exact Hle| |exact H].
   intros sc p l s' H0. apply parse_content_mono; [exact Hle|exact H0].
 Qed.
 
